@@ -196,11 +196,57 @@ def stored_unconverted(ck, rule, mods=None):
         ck.ok(rule, "position classes", "src/alignment/alignment_position.py", f"{n} constructor stores: none converts its argument")
 
 
+def candidate_scan_complete(ck, rule):
+    """Every (reference label, query label) combination inside the window is offered to de-duplication: the candidate generator
+    leaves its loops only where the window ends. A `break` under any other test (an exact hit, a first hit, a count) takes the
+    current reference label away from the later query labels of the window: in the first round they fall back to a farther
+    reference label and nobody competes for that one in the second - crossing pairs, a label paired with a non-nearest partner."""
+    p = ck.ctx.p
+    ck.clause(rule, "the candidate generator offers every pair of the window: its loops are left only at the window's end (a test against "
+                    "maxDistance) - never on a property of the candidate just produced")
+    eng = p.find_class("AlignerEngine")
+    gens = [m for m in eng.methods.values() if any(isinstance(x, ast.Yield) and isinstance(x.value, ast.Call) and
+                                                    "AlignedPair" in ast.unparse(x.value.func) for x in ast.walk(m.node))]
+    if not gens:
+        ck.ok(rule, "AlignerEngine:candidates", eng.where, "candidates are not produced by a generator with loops of its own (judged under C12.1)")
+        return
+    for g in gens:
+        parents = {c: par for par in ast.walk(g.node) for c in ast.iter_child_nodes(par)}
+        exits = [x for x in ast.walk(g.node) if isinstance(x, (ast.Break, ast.Return)) and any(
+            isinstance(a, (ast.For, ast.While)) for a in _ancestors(parents, x))]
+        bad = None
+        for x in exits:
+            tests = [a.test for a in _ancestors(parents, x) if isinstance(a, ast.If)]
+            if any("maxDistance" in ast.unparse(t) for t in tests):
+                raise AnalysisError(f"{where(g, x)}: the window's end is written as an early exit, which is not analysed here")
+            bad = bad or (x, tests)
+        if bad:
+            x, tests = bad
+            ck.violation(rule, f"{short(g)}:early-exit", where(g, x),
+                         "the scan of the window is left early under a test that is no window bound: the query labels behind this one lose "
+                         "the current reference label as a candidate, fall back to a farther one in the first de-duplication round, and "
+                         "nothing competes for that one in the second - crossing pairs, labels out of order, a non-nearest partner",
+                         found=("if " + ast.unparse(tests[0])[:100] + ": " if tests else "") + ("break" if isinstance(x, ast.Break) else "return"),
+                         required="every label of the window is offered (the window's end is the only exit)")
+        else:
+            ck.ok(rule, f"{short(g)}:early-exit", g.where, "the candidate loops run over the whole window")
+
+
+def _ancestors(parents, node):
+    out = []
+    while node in parents:
+        node = parents[node]
+        out.append(node)
+    return out
+
+
 def run(ck):
     ctx = ck.ctx
     p = ctx.p
     # (a seed that was altered when the Peak was built is another seed, not another pairing: peak.py is judged under C16.8 / C05.13)
     stored_unconverted(ck, "C12.7", mods=("src.alignment.alignment_position", "src.correlation.optical_map"))
+    if ck.wants("C12.9"):
+        candidate_scan_complete(ck, "C12.9")
     ck.clause("C12.1", "reference and candidate windows are closed intervals widened by maxDistance")
     ck.clause("C12.2", "offset = query position - (reference position - seed)")
     ck.clause("C12.3", "unpaired = complement (by siteId) of the returned de-duplicated pairs over the same position lists")
